@@ -55,10 +55,10 @@ RULE = ('full Cartesian product of box lower-left position (every integer positi
         'straddles at least one image edge (partial overlap or box covering the image)')
 BOUNDS = {
     'quick': 'box shapes 1x1,2x3,3x2,8x8,0x2,2x0; image shapes 5x6,1x1,3x4,6x2; weights ones/checker/antichecker/'
-             'dyadic fractions with zeros; dtypes int64,float64,Quantity[Jy]; layouts C and strided view of a '
+             'dyadic fractions with zeros; dtypes int64,uint16,float64,Quantity[Jy]; layouts C and strided view of a '
              'larger buffer; fills 0,7,NaN,+inf; copy False/True; user mask None/all False/checker/all True',
     'thorough': 'quick plus box shapes 1x4,4x1,5x5,10x7,0x0; image shapes 1x5,7x1,2x2,4x4,0x3,3x0; non-dyadic '
-                'weights; dtypes int32,uint16,float32; Fortran-ordered images; fill -inf and -2.5 (float data)',
+                'weights; dtypes int32,float32; Fortran-ordered images; fill -inf and -2.5 (float data)',
 }
 ASSUMPTIONS = ['numpy ndarray.tolist()/tobytes() and Quantity.to_value are trusted to read results back',
                'weights are float64 arrays (what every regions to_mask mode produces)',
@@ -74,7 +74,7 @@ _Q = dict(
     boxes=[(1, 1), (2, 3), (3, 2), (8, 8), (0, 2), (2, 0)],
     images=[(5, 6), (1, 1), (3, 4), (6, 2)],
     weights=['ones', 'checker', 'antichecker', 'frac'],
-    dtypes=['int64', 'float64', 'quantity'],
+    dtypes=['int64', 'float64', 'quantity', 'uint16'],
     layouts=['C', 'view'],
     fills=['0', '7', 'nan', 'inf'],
     copies=[False, True],
@@ -84,7 +84,7 @@ _T = dict(
     boxes=_Q['boxes'] + [(1, 4), (4, 1), (5, 5), (10, 7), (0, 0)],
     images=_Q['images'] + [(1, 5), (7, 1), (2, 2), (4, 4), (0, 3), (3, 0)],
     weights=_Q['weights'] + ['nondyadic'],
-    dtypes=_Q['dtypes'] + ['int32', 'uint16', 'float32'],
+    dtypes=_Q['dtypes'] + ['int32', 'float32'],
     layouts=['C', 'view', 'F'],
     fills=_Q['fills'] + ['-inf', '-2.5'],
     copies=[False, True],
